@@ -13,8 +13,8 @@ RULE = ("generated programs (C03 generator) printed by two independent printers 
         "token-preserving rewriters (LF->CRLF/CR/FF, blank lines, trailing spaces, `//` comment lines, spaces between tokens replaced by "
         "newlines / indentation / tabs / end-of-line comments, leading BOM/@charset, "
         "consistent and inconsistent `_`/`-` swaps in variable, function and mixin names); golden-corpus inputs under the "
-        "newline/BOM/@charset rewrites; plain-CSS outputs of the corpus re-parsed as CSS and as SCSS; a list of Sass-only "
-        "constructs that CSS mode must reject. non-trivial = the base compilation succeeds with non-empty output or "
+        "newline/BOM/@charset rewrites; plain-CSS outputs of the corpus re-parsed as CSS and as SCSS; a family of Sass-only "
+        "constructs (statements, nested rules / `&` / nested properties, SassScript values) x embedding contexts that CSS mode must reject. non-trivial = the base compilation succeeds with non-empty output or "
         "fails; distinct = distinct (base text, variant).")
 ASSUMPTIONS = ["byte equality of outputs is required except for the `//`-comment/blank-line rewrites of corpus inputs, which are compared on the error/success status and the CSS text as well (silent comments are never emitted)"]
 
@@ -30,6 +30,33 @@ SASS_ONLY = [
     "@use 'sass:math'; a { b: math.div(1, 2); }", "a { b: { c: d; } }", "@debug 1;", "@warn x;", "@at-root a { b: c; }",
     "a { b: if(true, 1, 2); }", "@for $i from 1 through 2 { a { b: c; } }", "a { b: 1 * 2; }", "a { b: $x; }",
 ]
+
+# Family: Sass-only construct x embedding context, all parsed in CSS mode (every member must be rejected).
+# Not members: `@else`, `@use`, `@forward` — CSS mode treats them as unknown at-rules and passes them through unevaluated
+# (as the reference implementation of that vintage does); nothing Sass-like happens to them.
+SO_STMT = ["$a: 1;", "$a: 1 !default;", "@mixin m { a: b; }", "@include m;", "@include m { a: b; }", "@function f() { @return 1; }", "@return 1;",
+           "@if true { a { b: c; } }", "@if false { a { b: c; } } @else { d { e: f; } }", "@each $i in 1 2 { a { b: c; } }",
+           "@for $i from 1 through 2 { a { b: c; } }", "@while false { a { b: c; } }", "@debug 1;", "@warn x;", "@error x;",
+           "@at-root a { b: c; }", "@at-root { a { b: c; } }", "@content;", "@extend a;", "@extend %p;", "// comment\n",
+           "%p { a: b; }", "#{a} { b: c; }", "a#{b} { c: d; }"]
+SO_STMT_CTX = ["%s", "x { y: z; } %s", "%s x { y: z; }", "@media screen { %s }", "@supports (a: b) { %s }", "x { %s }", "@font-face { %s }",
+               "@media screen { x { %s } }"]
+SO_RULE = ["&:hover { c: d; }", "& { c: d; }", "b { c: d; }", "b: { c: d; }", "b: e { c: d; }", "#{b}: c;", "b-#{c}: d;", "@extend x;",
+           "+ b { c: d; }", "> b { c: d; }", "~ b { c: d; }", ".k & { c: d; }", "b, c { d: e; }"]
+SO_RULE_CTX = ["a { %s }", "a { x: y; %s }", "a { %s x: y; }", "@media screen { a { %s } }", "@supports (p: q) { a { %s } }"]
+SO_VAL = ["$x", "#{1}", "a#{b}c", "1 + 1", "1 * 2", "1 % 2", "1 - 1", "(1 2)", "(a: b)", "(1, 2)", "if(true, 1, 2)", "math.div(1, 2)", "1 == 1",
+          "1 < 2", "-$x", "f($x)", "f($a: 1)", "f(1...)", "(1 + 1)", "1 !default", "&", "a !global", "1 != 2", "+$x", "\"a#{b}\""]
+SO_VAL_CTX = ["a { b: %s; }", "a { b: c %s; }", "a { b: f(%s); }", "a { b: %s, d; }", "@media screen { a { b: %s; } }", "a { b: c; d: %s }"]
+
+
+def sass_only_family():
+    out = list(SASS_ONLY)
+    for frag, ctxs in ((SO_STMT, SO_STMT_CTX), (SO_RULE, SO_RULE_CTX), (SO_VAL, SO_VAL_CTX)):
+        for f in frag:
+            for c in ctxs:
+                out.append(c % f)
+    return out
+
 
 NAME_RX = re.compile(r"(\$[a-z]+p?-\d+|\$nu-\d+|\$lrest-\d+|\bfn-\d+|\bmx-\d+)")
 
@@ -211,8 +238,9 @@ def run(sh):
                 sh.count("corpus_output_not_plain_css")
     # (3) Sass-only constructs rejected in CSS mode
     if sh.shard == 0:
-        rs = sh.w.batch([{"text": t, "syntax": "css"} for t in SASS_ONLY])
-        for t, r in zip(SASS_ONLY, rs):
+        fam = sass_only_family()
+        rs = sh.w.batch([{"text": t, "syntax": "css"} for t in fam])
+        for t, r in zip(fam, rs):
             sh.ev()
             if "err" not in r:
                 sh.violation("sass-accepted-in-css-mode:" + t, "Sass-only construct accepted in CSS mode: %s -> %s" % (t, str(r.get("ok"))[:100]),
